@@ -69,6 +69,11 @@ Proof.
     + eauto.
 Qed.
 
+Lemma wrap64_small z : 0 <= z < 2^63 -> wrap64 z = z.
+Proof. intros H. unfold wrap64. rewrite Z.mod_small; lia. Qed.
+Lemma wrap64_range z : - 2^63 <= wrap64 z < 2^63.
+Proof. unfold wrap64. pose proof (Z.mod_pos_bound (z + 2^63) (2^64) ltac:(lia)). lia. Qed.
+
 (* ---------------------------------------------------------------- znth / zrange *)
 Lemma zlen_nonneg {A} (l : list A) : 0 <= zlen l.
 Proof. unfold zlen; lia. Qed.
